@@ -16,7 +16,7 @@
    (3) true for put / ingest is part of the code (unchecked_*_refused, writes_inside_root_partial). *)
 From Coq Require Import String Ascii List Bool NArith.
 From V Require Import Model.Template Gen.TemplateGen Gen.TrashGen Model.Trash
-                      Proofs.TrashProofs Proofs.TrashProofs2 Proofs.TrashProofs3.
+                      Proofs.TrashProofs Proofs.TrashProofs2 Proofs.TrashProofs3 Proofs.TrashProofsX1 Proofs.TrashProofsX2.
 Import ListNotations.
 Open Scope string_scope.
 
@@ -33,7 +33,7 @@ Print Assumptions delete_only_unreferenced.
 
 (* one step, any state (the induction step of MAIN 1) *)
 Theorem step_deletes_unreferenced : forall s x l c,
-  sharing_visible s = true -> reingest s x = false -> target_inside x = true ->
+  sharing_visible s = true -> reingest s x = false -> target_inside x = true -> put_coherent x = true ->
   touches_env s x l = false ->
   fget (fs s) l = Some c -> fget (fs (fst (step s x))) l = None ->
   referenced (fst (step s x)) l = false.
@@ -66,7 +66,7 @@ Proof. exact never_touch_foreign_p. Qed.
 Print Assumptions never_touch_foreign.
 
 Theorem step_outside_frame : forall s x l,
-  recs_inside s = true -> target_inside x = true -> inside l = false -> touches_env s x l = false ->
+  recs_inside s = true -> target_inside x = true -> put_coherent x = true -> inside l = false -> touches_env s x l = false ->
   fget (fs (fst (step s x))) l = fget (fs s) l.
 Proof. exact step_outside_frame_p. Qed.
 Print Assumptions step_outside_frame.
@@ -99,16 +99,71 @@ Theorem unchecked_ingest_refused : forall s m ids p ext src,
 Proof. exact unchecked_ingest_refused_p. Qed.
 Print Assumptions unchecked_ingest_refused.
 
-(* writes_inside_root, for ALL texts (no restriction on "%"): the location Location CHECKED is inside => the location
-   WRITTEN after the extension is attached is inside.  PARTIAL in exactly one respect: the premise `ext_bridge p ext`
-   (attaching the extension keeps every decoded component but the last and makes the last an ordinary name) is a
-   decidable fact about updatedExtension + unquote that is evaluated by vm_compute on every correspondence case
-   (chk_path) but not proved for all strings. *)
+(* writes_inside_root, for ALL texts (no restriction on "%", any escapes) and every extension of the shape ".x..." without
+   "/" and "%" (good_ext; every formatter extension, good_ext_formatters): the location Location CHECKED is inside => the
+   location WRITTEN after the extension is attached is inside.  Unconditional: the former premise ext_bridge is a theorem. *)
+Theorem writes_inside_root : forall p ext,
+  good_ext ext = true -> checked true p = true -> inside (target_loc p ext) = true.
+Proof. exact writes_inside_root_p. Qed.
+Print Assumptions writes_inside_root.
+
+(* the link itself, for all strings: attaching the extension keeps every decoded component but the last and makes the last
+   an ordinary name (unq distributes over ++ at a non-hex boundary, split_slash over ++) *)
+Theorem ext_bridge_holds : forall p ext,
+  good_ext ext = true -> is_abs (unq (stage_a p)) = false -> ext_bridge p ext = true.
+Proof. exact ext_bridge_holds_p. Qed.
+Print Assumptions ext_bridge_holds.
+
+Theorem unquote_distributes : forall a b, nonhex_head b -> unq (a ++ b) = unq a ++ unq b.
+Proof. exact unq_app. Qed.
+Print Assumptions unquote_distributes.
+
+(* kept under its old name (now a corollary shape: the premise ext_bridge is always true by ext_bridge_holds) *)
 Theorem writes_inside_root_partial : forall p ext,
   is_abs (unq (stage_a p)) = false -> checked true p = true -> ext_bridge p ext = true ->
   inside (target_loc p ext) = true.
 Proof. exact writes_inside_root_partial_p. Qed.
 Print Assumptions writes_inside_root_partial.
+
+(* the FORMATTER's own location on put (extension replaced on the decoded location) is inside the root as well *)
+Theorem formatter_writes_inside : forall p ext,
+  good_ext ext = true -> rel_loc (stage_a p) <> [] -> checked true p = true -> inside (write_loc p ext) = true.
+Proof. exact formatter_writes_inside_p. Qed.
+Print Assumptions formatter_writes_inside.
+
+(* guard (3) is discharged: a put / ingest with a formatter extension either writes inside the root or is refused with the
+   state unchanged *)
+Theorem target_inside_or_noop : forall s x, ext_ok x = true -> zip_inside x = true ->
+  target_inside x = true \/ fst (step s x) = s.
+Proof. exact target_inside_or_noop_p. Qed.
+Print Assumptions target_inside_or_noop.
+
+(* MAIN 1 and MAIN 2 without guard (3): for EVERY start state and EVERY history whose put / ingest extensions are formatter
+   extensions and whose zip paths are inside (guarded2) *)
+Theorem delete_only_unreferenced_unconditional_target : forall h1 x h2 s l c,
+  guarded2 s (h1 ++ x :: h2) = true ->
+  touches_env (run s h1) x l = false ->
+  fget (fs (run s h1)) l = Some c -> fget (fs (fst (step (run s h1) x))) l = None ->
+  referenced (fst (step (run s h1) x)) l = false.
+Proof. exact delete_only_unreferenced2_p. Qed.
+Print Assumptions delete_only_unreferenced_unconditional_target.
+
+Theorem never_touch_foreign_unconditional_target : forall h s l,
+  guarded2 s h = true -> inside l = false -> untouched_by_env s h l = true ->
+  fget (fs (run s h)) l = fget (fs s) l.
+Proof. exact never_touch_foreign2_p. Qed.
+Print Assumptions never_touch_foreign_unconditional_target.
+
+(* a put whose guards hold stores its file exactly at the location its record names *)
+Theorem put_coherent_stores : forall s id p ext c,
+  refuse_location true p = false -> held_any s [id] = false -> inside (target_loc p ext) = true ->
+  put_coherent (Put id (FOk p) ext c) = true ->
+  let s' := fst (step s (Put id (FOk p) ext c)) in
+  snd (step s (Put id (FOk p) ext c)) = Done
+  /\ fget (fs s') (target_loc p ext) = Some c
+  /\ recs s' = (id, stage_a (strip_frag (join_slash (target_loc p ext)))) :: recs s.
+Proof. exact put_coherent_stores_p. Qed.
+Print Assumptions put_coherent_stores.
 
 (* the component-level content of it, at full strength: "outside" is absorbing, so every prefix of an inside path,
    extended by one ordinary name, is inside *)
@@ -195,6 +250,55 @@ Theorem delete_refuted_zip_reingest :
 Proof. exact zip_reingest_refuted_p. Qed.
 Print Assumptions delete_refuted_zip_reingest.
 
+(* FINDING F-C09-nested-escape (code as it is, df0ecd0 included): guard (4) is necessary.  ingest(copy) into a run that encodes
+   ".." THREE times is accepted -- the written location is inside the root, guard (3) holds -- but the record it leaves names a
+   location OUTSIDE the root, and pruning the dataset deletes the foreign file there (replayed: corpus/C09 10) *)
+Theorem foreign_refuted_nested_escape :
+  let s1 := fst (step st1 nested_ingest) in
+    (exists p, fmt1 run3 = FOk p /\ checked true p = true)
+    /\ snd (step st1 nested_ingest) = Done
+    /\ target_inside nested_ingest = true
+    /\ fget (fs s1) sentA = Some 3%N /\ inside sentA = false
+    /\ recs_inside s1 = false
+    /\ fget (fs (fst (step s1 (Prune [1%N])))) sentA = None.
+Proof. exact foreign_refuted_nested_escape_p. Qed.
+Print Assumptions foreign_refuted_nested_escape.
+
+Theorem foreign_refuted_nested_escape_put :
+  let s1 := fst (step st1 nested_put) in
+    snd (step st1 nested_put) = Done
+    /\ target_inside nested_put = true /\ put_coherent nested_put = false
+    /\ recs s1 = [(2%N, "../sentinel/dtD/dtD_Cam_det0_.._sentinel.yaml")]
+    /\ fget (fs s1) sentB = Some 4%N /\ inside sentB = false
+    /\ fget (fs (fst (step s1 (Prune [2%N])))) sentB = None.
+Proof. exact foreign_refuted_nested_escape_put_p. Qed.
+Print Assumptions foreign_refuted_nested_escape_put.
+
+(* guard (5) fails on "a%2eb": put is refused (FileNotFoundError) and leaves the formatter's file behind -- an orphan INSIDE
+   the root, no record, nothing outside touched (replayed: corpus/C09 11; not a C09 violation) *)
+Theorem put_dot_escape_orphan :
+  let s1 := fst (step st0 dot_put) in
+    snd (step st0 dot_put) = Refused NotFound
+    /\ put_coherent dot_put = false
+    /\ recs s1 = [] /\ live s1 = []
+    /\ fget (fs st0) dot_orphan = None /\ fget (fs s1) dot_orphan = Some 9%N /\ inside dot_orphan = true
+    /\ fget (fs s1) sent0 = fget (fs st0) sent0.
+Proof. exact put_dot_escape_orphan_p. Qed.
+Print Assumptions put_dot_escape_orphan.
+
+(* "#" in a run name: a guarded history; the removed dataset's file is LEAKED (kept because another dataset of the run is
+   stored: all record paths of the run share the artifact text "a") -- incomplete removal is C10's matter; no referenced file
+   is lost, as MAIN 1 demands (replayed: corpus/C09 12) *)
+Theorem hash_run_leaks_not_loses :
+  guarded st0 hash_hist = true
+  /\ let s := run st0 hash_hist in
+     recs s = [(2%N, "a#b/dtD/dtD_Cam_det1_aHASHb.yaml")]
+     /\ fget (fs s) ["a#b"; "dtD"; "dtD_Cam_det0_aHASHb.yaml"] = Some 5%N
+     /\ referenced s ["a#b"; "dtD"; "dtD_Cam_det0_aHASHb.yaml"] = false
+     /\ fget (fs s) ["a#b"; "dtD"; "dtD_Cam_det1_aHASHb.yaml"] = Some 1%N.
+Proof. exact hash_run_leaks_not_loses_p. Qed.
+Print Assumptions hash_run_leaks_not_loses.
+
 (* the keep-set of emptyTrash must be the UNION of the bridge's preserved set and the fragment recount: if the recount
    REPLACED it (seeded change C09a), one trash holding a zip member and one ref of a shared plain file would delete the
    shared file under a still-stored sibling; the model (= the code) keeps both the file and the zip *)
@@ -233,3 +337,9 @@ Proof. vm_compute. split; reflexivity. Qed.
 
 Example plain_names_exist : no_pct "r1/dtD/dtD_Cam_det0_r1" = true /\ no_pct (set_ext "r1/dtD/dtD_Cam_det0_r1" ".yaml") = true.
 Proof. vm_compute. split; reflexivity. Qed.
+
+Example good_ext_of_formatters : good_ext GEN_EXT_YAML = true /\ good_ext GEN_EXT_JSON = true /\ good_ext GEN_EXT_PICKLE = true.
+Proof. exact good_ext_formatters. Qed.
+
+Example demo_is_guarded2 : guarded2 st0 demo = true.
+Proof. exact demo_guarded2. Qed.
